@@ -752,7 +752,26 @@ func (x *Exec) sliceOp(fr *Frame, st *State, in *ssa.Slice) {
 		x.nilCheck(fr, st, in.X, xv, in.Pos(), "slice")
 		loc := x.ptrLoc(xv)
 		if !strings.HasPrefix(loc.Fam, "arr:") || len(loc.Idx) != 0 {
-			unsup("slicing an array nested in another object (%s)", loc.Fam)
+			// an array nested in another object (struct field, array element): the slice is modelled as a
+			// read-only snapshot of the array's current content in a fresh backing array; a write through
+			// the snapshot, or a write to any backing array while the original could be expected to change
+			// with it, is rejected by an obligation at every array write (snapshot:<...>)
+			et := at.Elem()
+			cur := x.load(st, loc)
+			ref := x.newRef(st, "arrsnap")
+			fam := "arr:" + x.c.elemFamName(et)
+			if len(cur.L) != len(x.c.leaves(et)) {
+				unsup("slicing an array nested in another object (%s)", loc.Fam)
+			}
+			x.snapRefs = append(x.snapRefs, ref)
+			x.snapInit = true
+			for j := range x.c.leaves(et) {
+				c := x.comp(st, fam, et, j)
+				x.setComp(st, fam, et, j, Store(c, ref, cur.L[j]))
+			}
+			x.snapInit = false
+			x.c.note("slices of arrays nested in structs are modelled as read-only snapshots (writes through them are rejected)")
+			loc = &Loc{Fam: fam, RootT: et, Ref: ref, Lo: 0, Hi: len(x.c.leaves(et)), T: et}
 		}
 		n := BVLit64(at.Len(), 64)
 		if hi == nil {
@@ -949,6 +968,29 @@ func (x *Exec) checkFrame(fr *Frame, st *State, loc *Loc, pos token.Pos) {}
 // under contract is executed: the written object must be new (allocated during this call) or named in
 // the contract's modifies clause. This is what makes call-site reasoning by contract sound.
 func (x *Exec) frameWrite(st *State, k string, t *Term) {
+	if len(x.snapRefs) > 0 && !st.dry && !x.inInit && t != nil && t.Op == "store" && strings.HasPrefix(k, "arr:") && x.curFr != nil {
+		ref := t.Args[1]
+		fresh := ref.Op == "const" && strings.HasPrefix(ref.Name, "ref_") && !strings.HasPrefix(ref.Name, "ref_arrsnap")
+		isSnapInit := false
+		for _, sr := range x.snapRefs {
+			if sr == ref {
+				isSnapInit = x.snapInit
+			}
+		}
+		if !fresh && !isSnapInit {
+			var cs []*Term
+			for _, sr := range x.snapRefs {
+				cs = append(cs, Not(Eq(ref, sr)))
+			}
+			pos := token.NoPos
+			label := "write"
+			if x.curIns != nil {
+				pos = x.curIns.Pos()
+				label = x.src(x.curFr.fn, pos, "write")
+			}
+			x.oblige(x.curFr, st, "snapshot", label+"@"+famOfKey(k), pos, And(cs...))
+		}
+	}
 	if !x.frameOn || st.dry || x.inInit || x.frameOff > 0 {
 		return
 	}
